@@ -320,7 +320,16 @@ def build_harness(name, sources, repo_sources=(), sanitize=True, extra_flags=(),
     return exe, None
 
 
+# AddressSanitizer's allocator ends the process where the plain run-time throws std::bad_alloc / std::length_error
+# ("requested allocation size ... exceeds maximum supported size", "allocator is out of memory", "out of memory"):
+# a limit of the instrumented run, not a memory error of the code under test
+ASAN_RESOURCE = re.compile(r'ERROR: AddressSanitizer: (requested allocation size|allocator is out of memory|out of memory'
+                           r'|allocation-size-too-big)')
+
+
 def sanitizer_kind(stderr):
+    if ASAN_RESOURCE.search(stderr):
+        return 'resource:asan-allocator'
     m = re.search(r'ERROR: AddressSanitizer: ([a-zA-Z\-]+)', stderr)
     if m:
         return 'asan:' + m.group(1)
@@ -380,7 +389,9 @@ def run_cases(exe, casefile, env=None, timeout=1800, max_restarts=200, extra_arg
             kind = sanitizer_kind(err) or died
             results[cur] = results[cur] + ' CRASH-AFTER:' + kind
         else:
-            results[cur] = 'CRASH:' + (sanitizer_kind(err) or died)
+            kind = sanitizer_kind(err) or died
+            # RESOURCE: the instrumented allocator refused a huge request - no verdict on this case
+            results[cur] = ('RESOURCE:' + kind) if kind.startswith('resource:') else ('CRASH:' + kind)
         restarts += 1
         try:
             nxt = ids[ids.index(cur) + 1]
@@ -604,6 +615,9 @@ def _run_check(P, tier, seed, replay=None):
                 nontriv.add(c)
             if exe is None or drv is None:
                 continue
+            if (ir or '').startswith('RESOURCE:'):
+                corr['resource_limit'] = corr.get('resource_limit', 0) + 1
+                continue
             if ip == mp:
                 corr['agree'] += 1
                 # internal observables are compared only where the driver prints comparable ones (the plug-in says so)
@@ -663,7 +677,7 @@ def _run_check(P, tier, seed, replay=None):
             if any(cid == d[0] for d in disagreements):
                 continue
             ir, mr = impl.get(cid), model.get(cid)
-            if ir is None:
+            if ir is None or ir.startswith('RESOURCE:'):
                 continue
             reason = P.spec_check(c, ir, mr)
             if reason:
@@ -746,7 +760,7 @@ def _run_check(P, tier, seed, replay=None):
             'rule': getattr(P, 'RULE', ''),
             'samples': corr['samples'] or [{'obligation': t} for t in pr['theorems'][:3]],
             'exhaustive': corr['exhaustive'], 'scopes': corr['scopes'],
-            'correspondence': {k: corr.get(k, 0) for k in ('agree', 'disagree', 'drift', 'outside_model')},
+            'correspondence': {k: corr.get(k, 0) for k in ('agree', 'disagree', 'drift', 'outside_model', 'resource_limit')},
             'input_distribution': corr['histogram'],
             'known_findings_reproduced': sorted(known_hits.keys()),
             'notes': notes, 'extra': {k: v for k, v in extra.items() if k != 'violations'},
